@@ -32,6 +32,7 @@ TARGET = os.environ.get("VERIF_TARGET", os.path.join(VERIF, "target"))
 LOGS = os.path.join(VERIF, "logs")
 REPO = "/repo"
 SMT_ENGINES = {"C16": "smt_c16"}
+PARTIAL_RUN = False
 
 ENV = dict(os.environ)
 ENV["CARGO_NET_OFFLINE"] = "true"
@@ -279,8 +280,33 @@ unexpected_cfgs = { level = "allow", check-cfg = ['cfg(kani)'] }
         shutil.copy(os.path.join(REPO, "Cargo.lock"), lock)
 
 
-def replay(prop, h, tier):
-    """Ask the solver for a concrete witness, write it as a unit test, run it natively.
+def _panic_matches(out, descs):
+    """Does the native panic correspond to one of the checks the solver reported as failed?
+    (A panic somewhere else — e.g. inside the real boomphf on a table the model accepted — is
+    NOT a reproduction.)"""
+    msgs = re.findall(r"panicked at [^\n]*:\n([^\n]*)", out)
+    msgs += re.findall(r"panicked at '([^']*)'", out)
+    norm = lambda t: re.sub(r"\s+", " ", t.replace('"', "").strip().lower())
+    for d in descs:
+        d0 = norm(re.sub(r"^assertion failed: ", "", d))
+        if not d0:
+            continue
+        for m in msgs:
+            m0 = norm(re.sub(r"^assertion failed: ", "", m))
+            if d0 in m0 or m0 in d0:
+                return True
+            for key in ("index out of bounds", "attempt to subtract with overflow", "attempt to add with overflow",
+                        "attempt to shift left with overflow", "attempt to shift right with overflow",
+                        "attempt to multiply with overflow", "out of range for slice", "option::unwrap()",
+                        "slice index starts at", "range end index", "range start index", "divide by zero"):
+                if key in d0 and key in m0:
+                    return True
+    return False
+
+
+def replay(prop, h, tier, failed_descs=()):
+    """Ask the solver for concrete witnesses, write them as unit tests, run them natively against
+    the real build (real boomphf).  Reproduced only if a native panic matches a failed check.
     -> (reproduced: bool|None, path, detail)"""
     tdir = os.path.join(TARGET, "replay")
     cap = h.cap * (1 if tier == "quick" else 6) * 2
@@ -289,47 +315,50 @@ def replay(prop, h, tier):
            % (cap, tdir, h.name))
     p = sh(cmd, cwd=HARNESS)
     out = p.stdout
-    m = re.search(r"```\s*\n(.*?)```", out, re.S)
+    blocks = re.findall(r"```\s*\n(.*?)```", out, re.S)
     rdir = os.path.join(VERIF, "replays", prop)
     os.makedirs(rdir, exist_ok=True)
     path = os.path.join(rdir, h.name + ".rs")
-    if not m:
+    # one generated test per failed check; tests for satisfied cover points are not counterexamples
+    tests = [b for b in blocks if "fn kani_concrete_playback_" in b and not re.search(r"Check for `cover`", b)]
+    if not tests:
         with open(path, "w") as f:
-            f.write("// no concrete playback test was produced by Kani for %s\n/*\n%s\n*/\n"
-                    % (h.name, out[-4000:]))
-        return None, path, "kani produced no concrete playback test"
-    test = m.group(1)
-    tm = re.search(r"fn (kani_concrete_playback_\w+)", test)
-    tname = tm.group(1) if tm else "kani_concrete_playback"
-    # the generated test refers to the harness by bare name; qualify it
-    test = re.sub(r"(?<![\w:])%s\b(?=\s*\))" % re.escape(h.name), "crate::gen::" + h.name, test)
-    header = ("// Concrete counterexample for property %s, harness gen::%s\n"
-              "// produced by: %s\n// replay: cd /verif/replay && cargo kani playback -Z concrete-playback -- %s\n"
-              % (prop, h.name, cmd, tname))
-    with open(path, "w") as f:
-        f.write(header + test)
-    # run natively against the real build (real boomphf)
+            f.write("// no concrete playback test for a failed check was produced by Kani for %s\n/*\n%s\n*/\n"
+                    % (h.name, out[-4000:].replace("*/", "* /")))
+        return None, path, "kani produced no concrete playback test for the failed check"
     ensure_replay_crate()
     pb = os.path.join(HARNESS, "src", "playback.rs")
-    with open(pb, "w") as f:
-        f.write("// @generated: concrete playback tests being replayed\n" + test)
-    try:
-        r = sh("cargo kani playback -Z concrete-playback -- %s --exact --nocapture" % ("playback::" + tname),
-               cwd=REPLAY_CRATE, timeout=1200)
-        o = r.stdout
-    except subprocess.TimeoutExpired:
-        o = "timeout"
-        r = None
-    finally:
+    header = ("// Concrete counterexample(s) for property %s, harness gen::%s\n// produced by: %s\n"
+              "// replay: cd /verif/replay && cargo kani playback -Z concrete-playback -- <test name>\n" % (prop, h.name, cmd))
+    body, reproduced, detail = "", False, "counterexample does not reproduce natively"
+    for test in tests[:3]:
+        tm = re.search(r"fn (kani_concrete_playback_\w+)", test)
+        tname = tm.group(1)
+        test = re.sub(r"(?<![\w:])%s\b(?=\s*\))" % re.escape(h.name), "crate::gen::" + h.name, test)
         with open(pb, "w") as f:
-            f.write("// @generated: empty when no replay is in progress\n")
-    with open(path, "a") as f:
-        f.write("\n/* native replay output (dev profile, real boomphf):\n%s\n*/\n" % o[-3000:].replace("*/", "* /"))
-    if "test result: FAILED" in o or "panicked at" in o:
-        return True, path, "reproduced natively"
-    if "test result: ok. 1 passed" in o:
-        return False, path, "counterexample does not reproduce natively"
-    return None, path, "native replay did not run: " + o[-300:]
+            f.write("// @generated: concrete playback test being replayed\n" + test)
+        try:
+            r = sh("cargo kani playback -Z concrete-playback -- %s --exact --nocapture" % ("playback::" + tname),
+                   cwd=REPLAY_CRATE, timeout=1200)
+            o = r.stdout
+        except subprocess.TimeoutExpired:
+            o = "timeout"
+        finally:
+            with open(pb, "w") as f:
+                f.write("// @generated: empty when no replay is in progress\n")
+        ok = ("panicked at" in o) and _panic_matches(o, failed_descs)
+        body += test + "\n/* native replay output (dev profile, real boomphf) — %s:\n%s\n*/\n\n" % (
+            "REPRODUCED" if ok else "not reproduced", o[-2500:].replace("*/", "* /"))
+        if ok:
+            reproduced, detail = True, "reproduced natively (%s)" % tname
+            break
+        if "panicked at" in o:
+            detail = "native run panicked, but not at a check the solver reported (e.g. inside the real boomphf): not counted"
+        elif "test result: ok" not in o:
+            detail = "native replay did not run: " + o[-200:]
+    with open(path, "w") as f:
+        f.write(header + body)
+    return (True if reproduced else False), path, detail
 
 
 # ----------------------------------------------------------------------------- known findings
@@ -406,6 +435,8 @@ def main():
         hs = [h for h in hs if h.tier == "quick"]
     if only:
         hs = [h for h in hs if only.search(h.name)]
+        global PARTIAL_RUN
+        PARTIAL_RUN = True
     if not hs:
         print("no harnesses for", prop)
         return 2
@@ -422,7 +453,7 @@ def main():
             continue
         if r["status"] == "FAIL":
             k = match_known(known, prop, h, r)
-            rep, path, detail = replay(prop, h, tier)
+            rep, path, detail = replay(prop, h, tier, [c["desc"] for c in r["failed_checks"]])
             r["replay"] = dict(reproduced=rep, path=path, detail=detail)
             if rep is True:
                 if k:
@@ -546,7 +577,11 @@ def write_evidence(prop, tier, seed, hs, results, wall, violations, inconclusive
         violations=len(violations),
     )
     os.makedirs(os.path.join(VERIF, "evidence"), exist_ok=True)
-    with open(os.path.join(VERIF, "evidence", prop + ".json"), "w") as f:
+    out = os.path.join(VERIF, "evidence", prop + ".json")
+    if PARTIAL_RUN:
+        # a --only run covers a subset of the registered check: keep the evidence file of the full run
+        out = os.path.join(LOGS, "partial_evidence_%s.json" % prop)
+    with open(out, "w") as f:
         json.dump(ev, f, indent=1)
 
 
